@@ -620,10 +620,10 @@ Proof.
     unfold enc_entries. apply Forall_forall. intros f Hin. apply in_map_iff in Hin as (kv & <- & Hkv).
     cbn [snd enc_msg]. apply ser_bytes, enc_strs_bytes. rewrite Forall_forall in Hmd. destruct (Hmd kv Hkv) as [[_ ?] [_ ?]].
     repeat constructor; assumption.
-  - intros Hsz. unfold dec_error_info. rewrite !fold_res_app.
+  - intros Hsz. unfold dec_error_info. rewrite fold_res_app.
     assert (E1 : fold_res merge_error_info (enc_str tag_ErrorInfo_reason r) (mkErrorInfo [] [] []) = Ok (mkErrorInfo r [] [])).
     { destruct r; [reflexivity|]. cbn [enc_str fold_res merge_error_info]. tag_eval. cbn [as_string]. now rewrite Hru. }
-    rewrite E1. cbn [bind].
+    rewrite E1. cbn [bind]. rewrite fold_res_app.
     assert (E2 : fold_res merge_error_info (enc_str tag_ErrorInfo_domain d) (mkErrorInfo r [] []) = Ok (mkErrorInfo r d [])).
     { destruct d; [reflexivity|]. cbn [enc_str fold_res merge_error_info]. tag_eval. cbn [as_string]. now rewrite Hdu. }
     rewrite E2. cbn [bind]. rewrite error_info_entries_rt; [reflexivity|exact Hnd|exact Hmd|].
@@ -660,8 +660,8 @@ Qed.
 Theorem detail_rt_c d : detail_ok d ->
   exists b, enc_detail_c d = Ok b /\ bytes_ok b = true /\ (nlen b < U64 -> dec_detail_c (kind_of d) b = Ok d).
 Proof.
-  destruct d as [x|x|x|x|x|x|x|x|x|x]; cbn [detail_ok kind_of]; intros H; unfold enc_detail_c, dec_detail_c;
-    cbn [enc_detail_fields lenient_of dec_detail_fields].
+  destruct d as [x|x|x|x|x|x|x|x|x|x]; cbn [detail_ok kind_of]; intros H;
+    unfold enc_detail_c, dec_detail_c, dec_detail_fields; cbn [enc_detail_fields lenient_of].
   - (* RetryInfo *)
     destruct (retry_info_rt x H) as (fs & E & Sh & B & R). rewrite E. cbn [bind]. eexists. split; [reflexivity|].
     split; [exact B|]. intros Hsz. rewrite parse_ser by assumption. cbn [bind]. now rewrite R.
@@ -727,3 +727,345 @@ Proof.
     cbn [lm_locale lm_message] in *. specialize (R Hsz).
     destruct (parse RECURSION_LIMIT [] _) as [fs'| | |]; try discriminate. cbn [bind] in *. now rewrite R.
 Qed.
+
+(* every payload decoder is total: Ok or Err on any bytes *)
+Theorem dec_detail_good_c k b : good (dec_detail_c k b).
+Proof.
+  unfold dec_detail_c. apply good_bind; [apply parse_good|]. intros fs _.
+  destruct k; cbn [dec_detail_fields]; (apply good_bind; [|intros; exact I]).
+  - apply dec_retry_info_good.
+  - apply fold_res_good. intros. apply merge_debug_info_good.
+  - apply good_bind; [apply dec_rep_strs_good|intros; exact I].
+  - apply fold_res_good. intros. apply merge_error_info_good.
+  - apply good_bind; [apply dec_rep_strs_good|intros; exact I].
+  - apply good_bind; [apply dec_rep_strs_good|intros; exact I].
+  - apply good_bind; [apply dec_strs_good|intros; exact I].
+  - apply good_bind; [apply dec_strs_good|intros; exact I].
+  - apply good_bind; [apply dec_rep_strs_good|intros; exact I].
+  - apply good_bind; [apply dec_strs_good|intros; exact I].
+Qed.
+
+(* ---------- google.rpc.Status and Any ---------- *)
+Lemma merge_any_good a f : good (merge_any a f).
+Proof.
+  destruct f as [t v]. unfold merge_any.
+  destruct (t =? tag_Any_type_url); [apply good_bind; [apply as_string_good|intros; exact I]|].
+  destruct (t =? tag_Any_value); [apply good_bind; [apply as_bytes_good|intros; exact I]|exact I].
+Qed.
+Lemma merge_status_good ps f : good (merge_status ps f).
+Proof.
+  destruct f as [t v]. unfold merge_status.
+  destruct (t =? tag_Status_code); [apply good_bind; [apply as_varint_good|intros; exact I]|].
+  destruct (t =? tag_Status_message); [apply good_bind; [apply as_string_good|intros; exact I]|].
+  destruct (t =? tag_Status_details); [|exact I].
+  apply good_bind; [apply as_message_good|]. intros fs _.
+  apply good_bind; [apply fold_res_good; intros; apply merge_any_good|intros; exact I].
+Qed.
+Theorem dec_status_good_c b : good (dec_status_c b).
+Proof.
+  unfold dec_status_c. apply good_bind; [apply parse_good|]. intros fs _.
+  apply fold_res_good. intros. apply merge_status_good.
+Qed.
+
+Lemma enc_any_shape a : Forall (shape_ok []) (enc_any a).
+Proof. unfold enc_any. apply Forall_app. split; apply enc_str_shape; closed_range. Qed.
+Lemma enc_any_bytes a : any_ok a -> Forall payload_bytes_ok (enc_any a).
+Proof. intros (_ & B1 & B2). unfold enc_any. apply Forall_app. split; now apply enc_str_bytes. Qed.
+
+Lemma dec_enc_any a : any_ok a -> fold_res merge_any (enc_any a) ([], []) = Ok a.
+Proof.
+  destruct a as [u v]. unfold any_ok. cbn [fst snd]. intros (Hu & _ & _). unfold enc_any. cbn [fst snd].
+  destruct u as [|c u]; destruct v as [|c' v]; cbn [enc_str app fold_res merge_any]; tag_eval;
+    cbn [as_string as_bytes]; rewrite ?Hu; reflexivity.
+Qed.
+
+Definition enc_anys (l : list any) : list field := map (fun a => enc_msg tag_Status_details (enc_any a)) l.
+
+Lemma status_details_rt l : forall c m acc,
+  Forall any_ok l -> (forall a, In a l -> nlen (ser (enc_any a)) < U64) ->
+  fold_res merge_status (enc_anys l) (mkPbStatus c m acc) = Ok (mkPbStatus c m (acc ++ l)).
+Proof.
+  induction l as [|a l IH]; intros c m acc Hok Hsz; [cbn; now rewrite app_nil_r|].
+  inversion Hok as [|? ? Ha Hl]; subst.
+  cbn [enc_anys map fold_res merge_status enc_msg]. tag_eval. cbn [as_message RECURSION_LIMIT].
+  rewrite parse_ser; [|apply enc_any_shape|apply Hsz; now left]. cbn [bind].
+  rewrite dec_enc_any by exact Ha. cbn [bind ps_code ps_message ps_details].
+  fold (enc_anys l). rewrite IH; [now rewrite <- app_assoc|exact Hl|]. intros a' Hin. apply Hsz. now right.
+Qed.
+
+Lemma enc_status_fields_shape ps : Forall (shape_ok []) (enc_status_fields ps).
+Proof.
+  unfold enc_status_fields. apply Forall_app. split.
+  { unfold enc_int. destruct (ps_code ps =? 0)%Z; constructor; [|constructor].
+    split; [closed_range|]. split; [apply of_int_lt|reflexivity]. }
+  apply Forall_app. split; [apply enc_str_shape; closed_range|].
+  apply Forall_forall. intros f Hin. apply in_map_iff in Hin as (a & <- & _). split; [closed_range|exact I].
+Qed.
+
+Theorem status_rt_c ps : pb_ok ps -> nlen (enc_status_c ps) < U64 -> dec_status_c (enc_status_c ps) = Ok ps.
+Proof.
+  destruct ps as [c m l]. unfold pb_ok. cbn [ps_code ps_message ps_details]. intros (Hc & Hu & _ & Hl) Hsz.
+  unfold dec_status_c, enc_status_c in *. rewrite parse_ser by (try apply enc_status_fields_shape; assumption).
+  cbn [bind]. unfold enc_status_fields in *. cbn [ps_code ps_message ps_details] in *. rewrite fold_res_app.
+  assert (E1 : fold_res merge_status (enc_int tag_Status_code c) (mkPbStatus 0 [] []) = Ok (mkPbStatus c [] [])).
+  { unfold enc_int. destruct (c =? 0)%Z eqn:E; [cbn; f_equal; f_equal; lia|].
+    cbn [fold_res merge_status]. tag_eval. cbn [as_varint bind ps_message ps_details].
+    now rewrite to_i32_of_int by lia. }
+  rewrite E1. cbn [bind]. rewrite fold_res_app.
+  assert (E2 : fold_res merge_status (enc_str tag_Status_message m) (mkPbStatus c [] []) = Ok (mkPbStatus c m [])).
+  { destruct m; [reflexivity|]. cbn [enc_str fold_res merge_status]. tag_eval. cbn [as_string]. now rewrite Hu. }
+  rewrite E2. cbn [bind]. fold (enc_anys l). rewrite status_details_rt; [reflexivity|exact Hl|].
+  intros a Hin.
+  enough (nlen (ser (enc_any a)) <= nlen (ser (enc_int tag_Status_code c ++ enc_str tag_Status_message m ++ enc_anys l))) by (fold (enc_anys l) in Hsz; lia).
+  apply (ser_payload_small tag_Status_details). apply in_or_app. right. apply in_or_app. right.
+  unfold enc_anys. apply in_map_iff. exists a. split; [reflexivity|exact Hin].
+Qed.
+
+Theorem status_bytes_ok_c ps : pb_ok ps -> bytes_ok (enc_status_c ps) = true.
+Proof.
+  intros (_ & _ & Hb & Hl). unfold enc_status_c, enc_status_fields. apply ser_bytes.
+  apply Forall_app. split; [unfold enc_int; destruct (ps_code ps =? 0)%Z; constructor; [exact I|constructor]|].
+  apply Forall_app. split; [now apply enc_str_bytes|].
+  apply Forall_forall. intros f Hin. apply in_map_iff in Hin as (a & <- & Ha). cbn [snd enc_msg].
+  apply ser_bytes. fold (payload_bytes_ok). apply enc_any_bytes. rewrite Forall_forall in Hl. now apply Hl.
+Qed.
+
+Theorem status_sub_c ps a : In a (ps_details ps) -> nlen (snd a) <= nlen (enc_status_c ps).
+Proof.
+  intros Hin. unfold enc_status_c.
+  assert (H1 : nlen (ser (enc_any a)) <= nlen (ser (enc_status_fields ps))).
+  { apply (ser_payload_small tag_Status_details). unfold enc_status_fields. apply in_or_app. right. apply in_or_app. right.
+    apply in_map_iff. exists a. split; [reflexivity|exact Hin]. }
+  assert (H2 : nlen (snd a) <= nlen (ser (enc_any a))).
+  { destruct (snd a) as [|x v] eqn:E; [unfold nlen; cbn; lia|]. rewrite <- E.
+    apply (ser_payload_small tag_Any_value). unfold enc_any. apply in_or_app. right. rewrite E. now left. }
+  lia.
+Qed.
+
+(* ============================================================================================ *)
+(* the closed theorems: layer A instantiated with layer B, composed with C04's status_roundtrip *)
+Definition fits_c := fits enc_detail_c enc_status_c.
+Definition recovers_c := recovers dec_detail_c dec_status_c.
+(* every detail that is present in the set is well formed *)
+Definition ed_ok (ed : error_details) : Prop := Forall detail_ok (pushed ed).
+
+Lemma is_code_small c : is_code c = true -> c < 2147483648.
+Proof.
+  intros H. assert (E : (fun c => c <? 2147483648) c = true).
+  { apply (sweep_list (fun c => c <? 2147483648) code_discriminants); [vm_compute; reflexivity|exact H]. }
+  cbv beta in E. lia.
+Qed.
+
+(* attach a list, travel through the header encoding, decode: everything at once *)
+Theorem attach_and_travel code message ds md :
+  is_code code = true -> utf8_valid message = true -> bytes_ok message = true ->
+  Forall detail_ok ds -> fits_c code message ds ->
+  hm_get_all md hdr_grpc_status_details = [] ->
+  exists st m st' conv,
+    with_error_details_vec_c code message ds md = Ok st /\
+    to_header_map st = Some m /\ from_header_map m = Some st' /\
+    st_code st' = code /\ st_msg st' = message /\ st_details st' = st_details st /\
+    (forall k, hm_get_all (st_md st') k = hm_get_all (sanitize md) k) /\
+    recovers_c st' ds /\
+    dec_status_c (st_details st') = Ok (mkPbStatus (Z.of_N code) message conv) /\
+    map fst conv = map (fun d => type_url (kind_of d)) ds.
+Proof.
+  intros Hc Hu Hb Hds Hfit Hmd.
+  destruct (attach_vec enc_detail_c dec_detail_c enc_status_c dec_status_c detail_ok
+              detail_rt_c dec_detail_good_c status_rt_c status_bytes_ok_c status_sub_c dec_status_good_c code message ds md
+              (is_code_small _ Hc) Hu Hb Hds Hfit)
+    as (st & conv & Est & Ecode & Emsg & Emd & Bdet & Fconv & Hdec).
+  assert (WF : well_formed st).
+  { unfold well_formed. rewrite Ecode, Emsg. auto. }
+  destruct (status_roundtrip st WF) as (m & st' & Hm & Hback & Hc' & Hm' & Hd' & Hmd').
+  { now rewrite Emsg. }
+  { now rewrite Emd. }
+  exists st, m, st', conv. destruct (Hdec st' Hd') as [Dps Rec].
+  split; [exact Est|]. split; [exact Hm|]. split; [exact Hback|].
+  split; [congruence|]. split; [congruence|]. split; [exact Hd'|].
+  split; [intros k; rewrite Hmd', Emd; reflexivity|]. split; [exact Rec|]. split; [exact Dps|].
+  clear - Fconv. induction Fconv as [|d a ds conv (U & _) _ IH]; [reflexivity|]. cbn [map]. now rewrite U, IH.
+Qed.
+
+(* C20, ordered list: same kinds, order and field values *)
+Theorem details_vec_roundtrip code message ds md :
+  is_code code = true -> utf8_valid message = true -> bytes_ok message = true ->
+  Forall detail_ok ds -> fits_c code message ds ->
+  hm_get_all md hdr_grpc_status_details = [] ->
+  exists st m st',
+    with_error_details_vec_c code message ds md = Ok st /\
+    to_header_map st = Some m /\ from_header_map m = Some st' /\
+    st_code st' = code /\ st_msg st' = message /\
+    check_error_details_vec_c st' = Ok ds /\ get_error_details_vec_c st' = Ok ds /\
+    check_error_details_c st' = Ok (last_wins ds) /\ get_error_details_c st' = Ok (last_wins ds) /\
+    forall k, get_details_c k st' = Ok (first_of_kind k ds).
+Proof.
+  intros Hc Hu Hb Hds Hfit Hmd.
+  destruct (attach_and_travel code message ds md Hc Hu Hb Hds Hfit Hmd)
+    as (st & m & st' & conv & E1 & E2 & E3 & E4 & E5 & _ & _ & (R1 & R2 & R3 & R4 & R5) & _).
+  exists st, m, st'. repeat (split; [assumption|]). exact R5.
+Qed.
+
+(* C20, set: every present kind comes back with its field values, absent kinds stay absent; read as
+   a list the details come in the fixed order of ErrorDetails' fields *)
+Theorem details_set_roundtrip code message ed md :
+  is_code code = true -> utf8_valid message = true -> bytes_ok message = true ->
+  ed_ok ed -> fits_c code message (pushed ed) ->
+  hm_get_all md hdr_grpc_status_details = [] ->
+  exists st m st',
+    with_error_details_c code message ed md = Ok st /\
+    to_header_map st = Some m /\ from_header_map m = Some st' /\
+    st_code st' = code /\ st_msg st' = message /\
+    check_error_details_c st' = Ok ed /\ get_error_details_c st' = Ok ed /\
+    check_error_details_vec_c st' = Ok (pushed ed) /\ get_error_details_vec_c st' = Ok (pushed ed) /\
+    forall k, get_details_c k st' = Ok (ed_get k ed).
+Proof.
+  intros Hc Hu Hb Hds Hfit Hmd.
+  destruct (details_vec_roundtrip code message (pushed ed) md Hc Hu Hb Hds Hfit Hmd)
+    as (st & m & st' & E1 & E2 & E3 & E4 & E5 & R1 & R2 & R3 & R4 & R5).
+  exists st, m, st'. rewrite last_wins_pushed in R3, R4.
+  repeat (split; [assumption|]). intros k. rewrite R5. f_equal. apply first_of_kind_pushed.
+Qed.
+
+(* C20: the embedded google.rpc.Status has the code and message of the outer status (and one Any,
+   with the right type URL, per detail) *)
+Theorem embedded_status_matches_outer code message ds md :
+  is_code code = true -> utf8_valid message = true -> bytes_ok message = true ->
+  Forall detail_ok ds -> fits_c code message ds ->
+  hm_get_all md hdr_grpc_status_details = [] ->
+  exists st m st' ps,
+    with_error_details_vec_c code message ds md = Ok st /\
+    to_header_map st = Some m /\ from_header_map m = Some st' /\
+    dec_status_c (st_details st') = Ok ps /\
+    ps_code ps = Z.of_N (st_code st') /\ ps_message ps = st_msg st' /\
+    map fst (ps_details ps) = map (fun d => type_url (kind_of d)) ds.
+Proof.
+  intros Hc Hu Hb Hds Hfit Hmd.
+  destruct (attach_and_travel code message ds md Hc Hu Hb Hds Hfit Hmd)
+    as (st & m & st' & conv & E1 & E2 & E3 & E4 & E5 & _ & _ & _ & D & U).
+  exists st, m, st', (mkPbStatus (Z.of_N code) message conv). cbn [ps_code ps_message ps_details].
+  repeat (split; [assumption|]). split; [now rewrite E4|]. split; [now rewrite E5|exact U].
+Qed.
+
+(* C20, decode side: whatever the details bytes are, no getter panics (nor does the model run out of
+   fuel); the check_* functions answer Ok or Err, the get_* functions answer the same value or the
+   empty one, the get_details_* functions answer None when the status itself is undecodable *)
+Theorem decode_total st :
+  good (check_error_details_c st) /\
+  good (check_error_details_vec_c st) /\
+  (exists ed, get_error_details_c st = Ok ed /\
+              (check_error_details_c st = Ok ed \/ check_error_details_c st = Err /\ ed = ed_empty)) /\
+  (exists l, get_error_details_vec_c st = Ok l /\
+             (check_error_details_vec_c st = Ok l \/ check_error_details_vec_c st = Err /\ l = [])) /\
+  (forall k, exists o, get_details_c k st = Ok o /\ (dec_status_c (st_details st) = Err -> o = None)).
+Proof. exact (decode_total_A dec_detail_c dec_status_c dec_detail_good_c dec_status_good_c st). Qed.
+
+(* ... in particular for whatever status is read from arbitrary headers *)
+Corollary decode_total_from_headers m :
+  match from_header_map m with
+  | None => True
+  | Some st =>
+      good (check_error_details_c st) /\ good (check_error_details_vec_c st) /\
+      (exists ed, get_error_details_c st = Ok ed) /\ (exists l, get_error_details_vec_c st = Ok l) /\
+      (forall k, exists o, get_details_c k st = Ok o)
+  end.
+Proof.
+  destruct (from_header_map m) as [st|]; [|exact I].
+  destruct (decode_total st) as (G1 & G2 & (ed & E & _) & (l & L & _) & K).
+  split; [exact G1|]. split; [exact G2|]. split; [eauto|]. split; [eauto|].
+  intros k. destruct (K k) as (o & O & _). eauto.
+Qed.
+
+(* encode side: with details that are well formed and fit in memory nothing panics *)
+Corollary attach_never_panics code message ds md :
+  is_code code = true -> utf8_valid message = true -> bytes_ok message = true ->
+  Forall detail_ok ds -> fits_c code message ds ->
+  exists st, with_error_details_vec_c code message ds md = Ok st.
+Proof.
+  intros Hc Hu Hb Hds Hfit.
+  destruct (attach_vec enc_detail_c dec_detail_c enc_status_c dec_status_c detail_ok
+              detail_rt_c dec_detail_good_c status_rt_c status_bytes_ok_c status_sub_c dec_status_good_c code message ds md
+              (is_code_small _ Hc) Hu Hb Hds Hfit) as (st & _ & E & _). eauto.
+Qed.
+
+(* ---------- RetryInfo::new and the protobuf range ---------- *)
+(* durations of the protobuf range (at most 315,576,000,000 s) are within what round-trips *)
+Lemma protobuf_range_dur_ok d : d_secs d <= 315576000000 -> d_nanos d < 1000000000 -> dur_ok d.
+Proof. unfold dur_ok, U63. lia. Qed.
+(* RetryInfo::new keeps a delay up to MAX_RETRY_DELAY and replaces a larger one by MAX_RETRY_DELAY *)
+Lemma retry_info_new_spec d :
+  retry_info_new (Some d) = mkRetryInfo (Some (if dur_gtb d MAX_RETRY_DELAY then MAX_RETRY_DELAY else d)).
+Proof. reflexivity. Qed.
+Lemma retry_info_new_keeps d : d_secs d <= 315576000000 -> d_nanos d < 1000000000 ->
+  retry_info_new (Some d) = mkRetryInfo (Some d).
+Proof.
+  intros Hs Hn. rewrite retry_info_new_spec. unfold dur_gtb, MAX_RETRY_DELAY, max_retry_delay_secs, max_retry_delay_nanos.
+  cbn [d_secs d_nanos]. replace ((315576000000 <? d_secs d) || ((d_secs d =? 315576000000) && (999999999 <? d_nanos d))) with false by lia.
+  reflexivity.
+Qed.
+(* whatever std Duration is given, the RetryInfo built by `new` is one that round-trips *)
+Lemma retry_info_new_ok o : (forall d, o = Some d -> d_nanos d < 1000000000) -> detail_ok (DRetryInfo (retry_info_new o)).
+Proof.
+  destruct o as [d|]; [|intros _; exact I]. intros H. specialize (H d eq_refl).
+  cbn [detail_ok]. unfold retry_info_ok, retry_info_new. cbn [ri_retry_delay].
+  unfold dur_gtb, MAX_RETRY_DELAY, max_retry_delay_secs, max_retry_delay_nanos. cbn [d_secs d_nanos].
+  destruct ((315576000000 <? d_secs d) || ((d_secs d =? 315576000000) && (999999999 <? d_nanos d))) eqn:E;
+    unfold dur_ok, U63; cbn [d_secs d_nanos]; lia.
+Qed.
+(* a literal RetryInfo (public field) beyond i64 seconds is written as the fallback maximum *)
+Lemma pb_retry_delay_fallback d : U63 <= d_secs d ->
+  pb_retry_delay d = Ok (mkPbDur (Z.of_N fallback_delay_secs) (Z.of_N fallback_delay_nanos)).
+Proof. intros H. unfold pb_retry_delay, pb_of_std. replace (d_secs d <? U63) with false by lia. reflexivity. Qed.
+
+(* the observable evaluated by the correspondence run is what the six functions say *)
+Lemma obs_decode_spec st :
+  obs_decode st =
+  let cv := check_error_details_vec_c st in
+  let cs := check_error_details_c st in
+  let items := match cv with Ok l => map obs_detail l | _ => [] end in
+  let cv_t := obs_res (fun _ => Nd items) cv in
+  let cs_t := obs_res (obs_ed items) cs in
+  Nd [cv_t;
+      same_or cv_t (obs_res (olist obs_detail) (get_error_details_vec_c st));
+      cs_t;
+      same_or cs_t (obs_res (obs_ed items) (get_error_details_c st));
+      Nd (map (fun k => obs_res (oopt (fun d => ref_first items (obs_detail d))) (get_details_c k st)) all_kinds);
+      obs_res obs_embedded (dec_status_c (st_details st))].
+Proof. reflexivity. Qed.
+
+(* ============================================================================================ *)
+(* the model is the model of the source as it is now: shapes regenerated by rs2v *)
+From Coq Require Import String.
+Lemma source_as_modelled :
+  error_detail_variants = ["RetryInfo"; "DebugInfo"; "QuotaFailure"; "ErrorInfo"; "PreconditionFailure"; "BadRequest";
+                           "RequestInfo"; "ResourceInfo"; "Help"; "LocalizedMessage"]%string /\
+  push_order = ["retry_info"; "debug_info"; "quota_failure"; "error_info"; "precondition_failure"; "bad_request";
+                "request_info"; "resource_info"; "help"; "localized_message"]%string /\
+  vec_push_variants = error_detail_variants /\
+  check_vec_arms = error_detail_variants /\
+  map fst check_set_arms = error_detail_variants /\ map snd check_set_arms = push_order /\
+  map snd getter_types = error_detail_variants /\ map fst getter_types = push_order /\
+  google_rpc_message_count = 15 /\
+  fields_Status = [("code", tag_Status_code, P_int32); ("message", tag_Status_message, P_string);
+                   ("details", tag_Status_details, P_msg_rep "prost_types::Any")]%string /\
+  fields_Any = [("type_url", tag_Any_type_url, P_string); ("value", tag_Any_value, P_bytes)]%string /\
+  fields_Duration = [("seconds", tag_Duration_seconds, P_int64); ("nanos", tag_Duration_nanos, P_int32)]%string /\
+  fields_RetryInfo = [("retry_delay", tag_RetryInfo_retry_delay, P_msg_opt "prost_types::Duration")]%string /\
+  fields_DebugInfo = [("stack_entries", tag_DebugInfo_stack_entries, P_string_rep); ("detail", tag_DebugInfo_detail, P_string)]%string /\
+  fields_QuotaFailure = [("violations", tag_QuotaFailure_violations, P_msg_rep "quota_failure::Violation")]%string /\
+  map snd fields_quota_failure_Violation = [P_string; P_string] /\ map (fun x => snd (fst x)) fields_quota_failure_Violation = QV_TAGS /\
+  fields_ErrorInfo = [("reason", tag_ErrorInfo_reason, P_string); ("domain", tag_ErrorInfo_domain, P_string);
+                      ("metadata", tag_ErrorInfo_metadata, P_map_string_string)]%string /\
+  fields_PreconditionFailure = [("violations", tag_PreconditionFailure_violations, P_msg_rep "precondition_failure::Violation")]%string /\
+  map snd fields_precondition_failure_Violation = [P_string; P_string; P_string] /\
+  map (fun x => snd (fst x)) fields_precondition_failure_Violation = PV_TAGS /\
+  fields_BadRequest = [("field_violations", tag_BadRequest_field_violations, P_msg_rep "bad_request::FieldViolation")]%string /\
+  map snd fields_bad_request_FieldViolation = [P_string; P_string] /\ map (fun x => snd (fst x)) fields_bad_request_FieldViolation = FV_TAGS /\
+  map snd fields_RequestInfo = [P_string; P_string] /\ map (fun x => snd (fst x)) fields_RequestInfo = RQ_TAGS /\
+  map snd fields_ResourceInfo = [P_string; P_string; P_string; P_string] /\ map (fun x => snd (fst x)) fields_ResourceInfo = RS_TAGS /\
+  fields_Help = [("links", tag_Help_links, P_msg_rep "help::Link")]%string /\
+  map snd fields_help_Link = [P_string; P_string] /\ map (fun x => snd (fst x)) fields_help_Link = HL_TAGS /\
+  map snd fields_LocalizedMessage = [P_string; P_string] /\ map (fun x => snd (fst x)) fields_LocalizedMessage = LM_TAGS /\
+  (max_retry_delay_secs, max_retry_delay_nanos) = (315576000000, 999999999) /\
+  (fallback_delay_secs, fallback_delay_nanos) = (315576000000, 999999999).
+Proof. repeat split; reflexivity. Qed.
